@@ -206,4 +206,3 @@ func GenSCION(r *vlib.Rand) (*slayers.SCION, string) {
 	s.RawSrcAddr = r.Bytes(s.SrcAddrType.Length())
 	return s, tag
 }
-
